@@ -1,1 +1,2 @@
 import PoxModel.Properties.C02
+import PoxModel.Properties.C18
